@@ -3,6 +3,7 @@
    non-ASCII words); every theorem holds for every oracle.  Strings are byte lists; an identifier is
    read as the rune sequence Go's decoder yields (each invalid byte is one U+FFFD). *)
 From God Require Import Base.Prelude C20.Str C20.Model C20.Spec C20.Proofs C20.Utf8.
+From God Require C20.Exec.
 Local Open Scope N_scope.
 
 (* FileNamingFormat computes exactly what the Spec prescribes: the rendering for accepted templates,
@@ -177,6 +178,32 @@ Theorem c20_config_no_alias : forall past,
   (forall s, held (SNew s :: past) (created past) = Some (effective_template s)).
 Proof. intro past. split; [intros; apply held_set_other; assumption|]. split; [intros; apply held_new_other; assumption|apply held_new_self]. Qed.
 Print Assumptions c20_config_no_alias.
+
+(* no ambient state: the checkers decide a case from (template, identifier, history, observations) and
+   Go's unicode tables alone -- the environment the driver process was started with (Exec.c_env) is not
+   an input of the model or of the Spec, so an implementation whose results vary with it cannot pass
+   under every environment.  The default template is the constant "godesigner". *)
+Theorem c20_no_ambient_state : forall c1 c2 : C20.Exec.case,
+  C20.Exec.c_tmpl c1 = C20.Exec.c_tmpl c2 -> C20.Exec.c_content c1 = C20.Exec.c_content c2 ->
+  C20.Exec.c_runes c1 = C20.Exec.c_runes c2 -> C20.Exec.c_xt c1 = C20.Exec.c_xt c2 ->
+  C20.Exec.c_hist c1 = C20.Exec.c_hist c2 ->
+  C20.Exec.c_fmt c1 = C20.Exec.c_fmt c2 -> C20.Exec.c_fmt2 c1 = C20.Exec.c_fmt2 c2 ->
+  C20.Exec.c_camel c1 = C20.Exec.c_camel c2 -> C20.Exec.c_snake c1 = C20.Exec.c_snake c2 ->
+  C20.Exec.c_rt c1 = C20.Exec.c_rt c2 -> C20.Exec.c_untitle c1 = C20.Exec.c_untitle c2 ->
+  C20.Exec.c_cfg c1 = C20.Exec.c_cfg c2 -> C20.Exec.c_cfgfmt c1 = C20.Exec.c_cfgfmt c2 ->
+  C20.Exec.c_hobs c1 = C20.Exec.c_hobs c2 ->
+  C20.Exec.spec_ok c1 = C20.Exec.spec_ok c2 /\ C20.Exec.model_ok c1 = C20.Exec.model_ok c2.
+Proof.
+  intros [e1 t1 k1 r1 x1 f1 g1 a1 s1 o1 u1 p1 q1 h1 b1] [e2 t2 k2 r2 x2 f2 g2 a2 s2 o2 u2 p2 q2 h2 b2]; cbn.
+  intros; subst. split; reflexivity.
+Qed.
+Print Assumptions c20_no_ambient_state.
+
+Theorem c20_default_is_constant : forall U st,
+  fst (hstep U st (HNew [])) = Ok [103; 111; 100; 101; 115; 105; 103; 110; 101; 114] /\
+  new_config U [] = Ok [103; 111; 100; 101; 115; 105; 103; 110; 101; 114].
+Proof. intros. split; reflexivity. Qed.
+Print Assumptions c20_default_is_constant.
 
 (* ---------------- non-vacuity and documented examples (ASCII: the oracle is never consulted) ---------------- *)
 Definition U0 : unicode := mkU (fun r => r) (fun r => r) (fun r => r) (fun _ => false) (fun _ => false)
